@@ -66,6 +66,27 @@ def check(basis, symbolic, env=None, seed=0):
     p = unitaries.rotate_rho_probs(dm, basis, batch, rho=_c2t(rho)).numpy()
     if not np.allclose(p, np.real(np.diag(want))[order], **tol):
         fails.append(("rotate_rho_probs(explicit rho) != Re diag(U rho U^dagger)", float(np.abs(p - np.real(np.diag(want))[order]).max())))
+    # explicit states given as non-contiguous views (a transposed matrix, every second column of a wider buffer): the memory
+    # layout of an argument is not part of its value
+    rho_t = _c2t(rho)
+    rho_nc = rho_t.transpose(1, 2).contiguous().transpose(1, 2)          # same entries, column-major storage
+    wide = torch.zeros(2, 2 * D, dtype=torch.double)
+    wide[:, ::2] = _c2t(psi)
+    psi_nc = wide[:, ::2]
+    if rho_nc.is_contiguous() and D > 1:
+        fails.append(("driver: could not build a non-contiguous rho", None))
+    if not np.allclose(_t2c(unitaries.rotate_rho(dm, basis, space, rho=rho_nc)), want, **tol):
+        fails.append(("rotate_rho(non-contiguous explicit rho) != U rho U^dagger", basis))
+    if not np.allclose(_t2c(unitaries.rotate_psi(cw, basis, space, psi=psi_nc)), Ud @ psi, **tol):
+        fails.append(("rotate_psi(non-contiguous explicit psi) != U psi", basis))
+    pn = unitaries.rotate_rho_probs(dm, basis, batch, rho=rho_nc).numpy()
+    if not np.allclose(pn, np.real(np.diag(want))[order], **tol):
+        fails.append(("rotate_rho_probs(non-contiguous explicit rho) != Re diag(U rho U^dagger)", basis))
+    an = _t2c(unitaries.rotate_psi_inner_prod(cw, basis, batch, psi=psi_nc))
+    if not np.allclose(an, (Ud @ psi)[order], **tol):
+        fails.append(("rotate_psi_inner_prod(non-contiguous explicit psi) != (U psi)[idx]", basis))
+    if not torch.equal(rho_nc, rho_t) or not torch.equal(psi_nc, _c2t(psi)):
+        fails.append(("an explicit state passed as a view was modified", basis))
     # explicit states whose tensors are not float64 (integer amplitudes, single precision): the exact unitary factors are not
     # to be narrowed to the state's dtype
     ipsi = rng.integers(-2, 3, size=(2, D))
